@@ -112,7 +112,7 @@ m('C09', 'to_list-seed-value', 'benign', 'rxsci/data/to_list.py', 'to_list seede
 
 # ---- C10 sequence operators
 m('C10', 'first-no-flag', 'detect', 'rxsci/operators/first.py', 'first never records that it has emitted',
-  "                        observer.on_next(i)\n                        i.store.set_state(state, i.key, True)", "                        observer.on_next(i)")
+  "                        i.store.set_state(state, i.key, True)\n                        observer.on_next(i)", "                        observer.on_next(i)")
 m('C10', 'take-off-by-one', 'detect', 'rxsci/operators/take.py', 'take emits one item too many',
   "                    if value > 0:", "                    if value >= 0:")
 m('C10', 'lag-off-by-one', 'detect', 'rxsci/data/lag.py', 'lag window one short',
@@ -202,6 +202,31 @@ m('C08', 'zip-is-not-none', 'detect', 'rxsci/operators/tee_map.py',
   'zip decides that a branch has produced from the value (None items) instead of the flag',
   "                    _next = has_next[base_index:base_index+n]\n                    if all(_next):",
   "                    _next = [v is not None for v in queue[base_index:base_index+n]]\n                    if all(_next):")
+
+# ---- re-entrant delivery (the defects repaired by e90fac1 and 1ef0f4a)
+m('C10', 'take-emits-before-state', 'detect', 'rxsci/operators/take.py',
+  'take emits the item before it decrements its counter (the repaired defect)',
+  "                        i.store.set_state(state, i.key, value - 1)\n                        observer.on_next(i)\n",
+  "                        observer.on_next(i)\n                        i.store.set_state(state, i.key, value - 1)\n", ['C10', 'C01'])
+m('C10', 'first-emits-before-state', 'detect', 'rxsci/operators/first.py',
+  'first emits the item before it sets its flag (the repaired defect)',
+  "                        i.store.set_state(state, i.key, True)\n                        observer.on_next(i)\n",
+  "                        observer.on_next(i)\n                        i.store.set_state(state, i.key, True)\n", ['C10'])
+m('C10', 'lag-emits-before-pop', 'detect', 'rxsci/data/lag.py',
+  'lag(n) emits before it drops the oldest item (the repaired defect)',
+  "                    lag_item = q[0]\n                    if len(q) > size:\n                        q.popleft()\n                    observer.on_next(i._replace(item=(lag_item, i.item)))\n",
+  "                    observer.on_next(i._replace(item=(q[0], i.item)))\n                    if len(q) > size:\n                        q.popleft()\n", ['C10'])
+m('C09', 'scan-emits-before-state', 'detect', 'rxsci/operators/scan.py',
+  'scan emits the running value before it stores it',
+  "                        acc = accumulator(value, i.item)\n                        i.store.set_state(state, i.key, acc)\n                        if reduce is False:\n                            observer.on_next(rs.OnNextMux(i.key, acc, i.store))\n",
+  "                        acc = accumulator(value, i.item)\n                        if reduce is False:\n                            observer.on_next(rs.OnNextMux(i.key, acc, i.store))\n                        i.store.set_state(state, i.key, acc)\n", ['C09', 'C01'])
+m('C15', 'lp-emits-before-buffer', 'detect', 'rxsci/framing/length_prefix.py',
+  'length_prefix.unframe emits the frames before it stores the pending bytes (the repaired defect)',
+  "                        frames.append(data)\n", "                        frames.append(data)\n                        observer.on_next(data)\n                        frames.pop()\n", ['C15'])
+m('C15', 'lp-frames-comprehension', 'benign', 'rxsci/framing/length_prefix.py',
+  'the frames are emitted from a copy of the list',
+  "                for data in frames:\n                    observer.on_next(data)\n",
+  "                for data in list(frames):\n                    observer.on_next(data)\n", ['C15'])
 
 
 def main():
